@@ -86,15 +86,15 @@ fn rangeproof<const L: usize>() -> Option<Box<RangeProof>> {
 }
 
 /// 1 input / 1 output transaction; structural features symbolic; witness presence chosen by the caller
-fn mk_tx(in_wit: bool, out_wit: bool) -> Transaction {
+fn mk_tx(in_wit: bool, out_wit: bool, ins: &mut core::mem::ManuallyDrop<[TxIn; 1]>, outs: &mut core::mem::ManuallyDrop<[TxOut; 1]>, sws: &mut core::mem::ManuallyDrop<[Vec<u8>; 1]>) -> Transaction {
     let iss_present: bool = kani::any();
     let issuance = if iss_present {
         let i = AssetIssuance { asset_blinding_nonce: spec::raw_tweak(), asset_entropy: kani::any(), amount: spec::any_value(), inflation_keys: spec::any_value() };
         kani::assume(!(i.amount.is_null() && i.inflation_keys.is_null()));
         i
     } else { AssetIssuance::null() };
-    let mut sw = Vec::with_capacity(1);
-    if in_wit { sw.push(spec::any_vec::<2>()); }
+    sws[0] = spec::any_vec::<2>();
+    let sw: Vec<Vec<u8>> = if in_wit { unsafe { spec::vec_over(sws) } } else { Vec::new() };
     let inp = TxIn {
         previous_output: OutPoint { txid: Txid::from_byte_array(kani::any()), vout: kani::any() },
         is_pegin: kani::any(),
@@ -113,9 +113,9 @@ fn mk_tx(in_wit: bool, out_wit: bool) -> Transaction {
         script_pubkey: Script::from(spec::any_vec::<2>()),
         witness: TxOutWitness { surjection_proof: None, rangeproof: if out_wit { rangeproof::<2>() } else { None } },
     };
-    let mut iv = Vec::with_capacity(1); iv.push(inp);
-    let mut ov = Vec::with_capacity(1); ov.push(out);
-    Transaction { version: kani::any(), lock_time: LockTime::from_consensus(kani::any()), input: iv, output: ov }
+    unsafe { core::ptr::write(&mut ins[0], inp); core::ptr::write(&mut outs[0], out); }
+    Transaction { version: kani::any(), lock_time: LockTime::from_consensus(kani::any()),
+        input: unsafe { spec::vec_over(ins) }, output: unsafe { spec::vec_over(outs) } }
 }
 
 macro_rules! txid_harness {
@@ -124,7 +124,11 @@ macro_rules! txid_harness {
         fn $name() {
             ffi_models::init_accept_all();
             const N: usize = 320;
-            let mut tx = mk_tx($iw, $ow);
+            // element storage in typed local arrays (see spec::vec_over)
+            let mut ins = core::mem::ManuallyDrop::new([TxIn::default()]);
+            let mut outs = core::mem::ManuallyDrop::new([TxOut::default()]);
+            let mut sws = core::mem::ManuallyDrop::new([Vec::new()]);
+            let mut tx = mk_tx($iw, $ow, &mut ins, &mut outs, &mut sws);
             assert!(tx.has_witness() == ($iw || $ow));
             // wtxid: the engine sees exactly the full serialization
             log_reset();
